@@ -1,4 +1,5 @@
 """C01 Canonicity: hash-consing discipline"""
+import witness
 import ecanon
 import ereduce
 import eraw
@@ -24,4 +25,9 @@ def run(ctx):
     ctx.floor("E-TABLE.reduce", "abstract situations of the reduce functions", n, 400)
     eraw.run(ctx, F)
     eunits.check_level_swap(ctx, F)
+    if ctx.tier == "thorough":
+        ctx.explain("E-WITNESS: compile_fail witnesses (with error codes, each with a compiling twin): Edge is not "
+                    "Clone, Borrowed cannot outlive its edge, edges are branded by the manager's invariant 'id and cannot "
+                    "escape the locking closure.")
+        witness.run(ctx)
     ctx.not_decided = "the 'iff' over histories (gc, slot reuse, reordering); handle equality across managers"
